@@ -135,6 +135,10 @@ func (p *PX) byteSeqOf(v ssa.Value, fr *pxFrame, st *pxState) *ByteSeq {
 			if al, ok := x.X.(*ssa.Alloc); ok {
 				return st.bseq[p.reg(fr, al)+"*"]
 			}
+			if ia, ok := x.X.(*ssa.IndexAddr); ok && isByteSlice(x.Type()) && !isByteSlice(ia.X.Type()) {
+				// an element of a [][]byte whose cell was filled on this path
+				return st.bseq["mem:"+p.term(ia, fr, st).key]
+			}
 			if g, ok := x.X.(*ssa.Global); ok {
 				if vals, ok := p.w.globalBytes(g); ok {
 					bs := &ByteSeq{}
@@ -278,11 +282,11 @@ func (p *PX) byteCall(x *ssa.Call, fr *pxFrame, st *pxState) {
 			}
 		}
 		st.bseq[key] = &ByteSeq{Oct: append([]*Term(nil), init.Oct...)}
-	case "(*bytes.Buffer).WriteByte":
+	case "(*bytes.Buffer).WriteByte", "(*strings.Builder).WriteByte":
 		if buf := p.bufferOf(x.Call.Args[0], fr, st); buf != nil && !buf.Open {
 			buf.Oct = append(buf.Oct, p.term(x.Call.Args[1], fr, st))
 		}
-	case "(*bytes.Buffer).Write", "(*bytes.Buffer).WriteString":
+	case "(*bytes.Buffer).Write", "(*bytes.Buffer).WriteString", "(*strings.Builder).Write", "(*strings.Builder).WriteString":
 		if buf := p.bufferOf(x.Call.Args[0], fr, st); buf != nil && !buf.Open {
 			if add := p.byteSeqOf(x.Call.Args[1], fr, st); add != nil && !add.Open {
 				buf.Oct = append(buf.Oct, add.Oct...)
@@ -293,7 +297,8 @@ func (p *PX) byteCall(x *ssa.Call, fr *pxFrame, st *pxState) {
 		} else if buf != nil {
 			buf.Pay = append(buf.Pay, x.Call.Args[1])
 		}
-	case "(*bytes.Buffer).Bytes":
+	case "(*bytes.Buffer).Bytes", "(*bytes.Buffer).String", "(*strings.Builder).String":
+		// (the text accumulated so far; a string result is looked up by the call's register)
 		if buf := p.bufferOf(x.Call.Args[0], fr, st); buf != nil {
 			st.bseq[key] = &ByteSeq{Oct: append([]*Term(nil), buf.Oct...), Open: buf.Open, Pay: buf.Pay}
 		}
@@ -386,7 +391,7 @@ func (p *PX) bufferOf(v ssa.Value, fr *pxFrame, st *pxState) *ByteSeq {
 		return st.bseq[p.reg(fr, x)]
 	case *ssa.Alloc:
 		// new(bytes.Buffer) / var b bytes.Buffer
-		if pt, ok := x.Type().Underlying().(*types.Pointer); ok && typeStr(pt.Elem()) == "bytes.Buffer" {
+		if pt, ok := x.Type().Underlying().(*types.Pointer); ok && (typeStr(pt.Elem()) == "bytes.Buffer" || typeStr(pt.Elem()) == "strings.Builder") {
 			key := p.reg(fr, x)
 			if bs, ok := st.bseq[key]; ok {
 				return bs
